@@ -100,6 +100,41 @@ def tried_fields(fn: ast.FunctionDef):
     return own, out, ends_none
 
 
+def check_soc_vs_fields(ctx, F, rid):
+    """_SYNTAX_ORDERED_CHILDREN vs FIELDS (used as R14.1a, R11.1 and R1.4)."""
+    ctx.rule(rid, 'for every class of FIELDS: _SYNTAX_ORDERED_CHILDREN has an entry whose child sequence is exactly '
+                       'the AST-valued fields of FIELDS, in FIELDS order (interleaved builders: field-set coverage via '
+                       'flow into `children`)', 120)
+    soc = soc_sequences(ctx)
+    for c in F:
+        want = [f for f, t in T.ast_fields_of(F, c) if present(ctx, c, f)]
+        allowed_extra = {f for f, t in F[c] if t.rstrip('?*') == 'type_ignore'}
+        if c not in soc:
+            ctx.bad(rid, 'astutil', '_SYNTAX_ORDERED_CHILDREN', f'{c.name}: <missing>',
+                    f'class {c.name} of FIELDS has no syntax-order entry; walk() would fall back to the generic builder')
+            continue
+        kind, seq, tok = soc[c]
+        if kind == 'seq':
+            got = [f for f, _ in seq if f not in allowed_extra]
+            stars_ok = all(star == (T.card(dict(F[c])[f]) == 'list') for f, star in seq if f in dict(F[c]))
+            ctx.check(rid, got == want and stars_ok, 'astutil', '_SYNTAX_ORDERED_CHILDREN',
+                      f'{c.name}: {norm(tok.node)}',
+                      f'child sequence {got} differs from AST fields of FIELDS[{c.name}] {want} (order / omission / '
+                      f'star-ness); _offset() and walk() rely on complete source-ordered children',
+                      getattr(tok.node, 'lineno', 0), sample={'class': c.name, 'sequence': got})
+        else:
+            missing = set(want) - seq
+            ctx.check(rid, not missing and c.name in INTERLEAVED, 'astutil', tok.qualname, f'{c.name}: fields->children',
+                      f'interleaved builder for {c.name} never puts field(s) {sorted(missing)} into `children`'
+                      if missing else f'{c.name} uses a custom builder but is not a known interleaved class',
+                      T.func_nodes(ctx, tok)[0].lineno, sample={'class': c.name, 'fields_flowing': sorted(seq)})
+    for c in soc:
+        if c not in F:
+            ctx.bad(rid, 'astutil', '_SYNTAX_ORDERED_CHILDREN', f'{c.name}: <not in FIELDS>',
+                    'syntax-order entry for a class that FIELDS does not describe')
+
+
+
 def run(ctx):
     F = T.fields(ctx)
     ctx.not_decided += [
@@ -110,37 +145,7 @@ def run(ctx):
     ctx.assumptions = ['order of AST-valued fields in astutil.FIELDS is the syntax order for non-interleaved classes '
                        '(stated in the source: "DO NOT CHANGE THE ORDER OF FIELDS")']
 
-    # ---- R14.1a  _SYNTAX_ORDERED_CHILDREN vs FIELDS ---------------------------------------------------------------
-    ctx.rule('R14.1a', 'for every class of FIELDS: _SYNTAX_ORDERED_CHILDREN has an entry whose child sequence is exactly '
-                       'the AST-valued fields of FIELDS, in FIELDS order (interleaved builders: field-set coverage via '
-                       'flow into `children`)', 120)
-    soc = soc_sequences(ctx)
-    for c in F:
-        want = [f for f, t in T.ast_fields_of(F, c) if present(ctx, c, f)]
-        allowed_extra = {f for f, t in F[c] if t.rstrip('?*') == 'type_ignore'}
-        if c not in soc:
-            ctx.bad('R14.1a', 'astutil', '_SYNTAX_ORDERED_CHILDREN', f'{c.name}: <missing>',
-                    f'class {c.name} of FIELDS has no syntax-order entry; walk() would fall back to the generic builder')
-            continue
-        kind, seq, tok = soc[c]
-        if kind == 'seq':
-            got = [f for f, _ in seq if f not in allowed_extra]
-            stars_ok = all(star == (T.card(dict(F[c])[f]) == 'list') for f, star in seq if f in dict(F[c]))
-            ctx.check('R14.1a', got == want and stars_ok, 'astutil', '_SYNTAX_ORDERED_CHILDREN',
-                      f'{c.name}: {norm(tok.node)}',
-                      f'child sequence {got} differs from AST fields of FIELDS[{c.name}] {want} (order / omission / '
-                      f'star-ness); _offset() and walk() rely on complete source-ordered children',
-                      getattr(tok.node, 'lineno', 0), sample={'class': c.name, 'sequence': got})
-        else:
-            missing = set(want) - seq
-            ctx.check('R14.1a', not missing and c.name in INTERLEAVED, 'astutil', tok.qualname, f'{c.name}: fields->children',
-                      f'interleaved builder for {c.name} never puts field(s) {sorted(missing)} into `children`'
-                      if missing else f'{c.name} uses a custom builder but is not a known interleaved class',
-                      T.func_nodes(ctx, tok)[0].lineno, sample={'class': c.name, 'fields_flowing': sorted(seq)})
-    for c in soc:
-        if c not in F:
-            ctx.bad('R14.1a', 'astutil', '_SYNTAX_ORDERED_CHILDREN', f'{c.name}: <not in FIELDS>',
-                    'syntax-order entry for a class that FIELDS does not describe')
+    check_soc_vs_fields(ctx, F, 'R14.1a')
 
     # ---- R14.1b  key coverage of NEXT_FUNCS / PREV_FUNCS ------------------------------------------------------------
     ctx.rule('R14.1b', 'keys of NEXT_FUNCS and PREV_FUNCS == {(cls, None)} + {(cls, f) : f AST-valued field of cls}', 580)
